@@ -11,6 +11,31 @@ CHECKS = {
     technique='bounded exhaustive input enumeration against an explicit-state game arena solved by Zielonka (explicit-state model checking as oracle)',
     text='Every Streett(1) game of two complete 2-bit families (all 16x16 action pairs in three support classes, 4 modes) and of six wider declaration shapes is solved by the library and by an explicit arena solver; regions must be equal as sets over the full bit range. Exhaustive within that scope, which is where quantifier-order, priming and fixpoint-initialisation errors show.',
     note='trusts dd (cudd/autoref), CPython, the bit-level read-out and the Zielonka reference (self-tested against brute force); says nothing beyond 2-4 bits of state'),
+ 'C02': dict(
+    category='model_checking', design='4/C02',
+    technique='explicit-state exploration of the closed loop env x synthesized implementation (all reachable states, transitions, SCC fair-cycle criterion), BFS paths replayed through the real action BDD',
+    text='For every realizable game of the families (initial conditions rotating over the 4 qinit forms) the Streett transducer is built by the library; the product with the environment is explored explicitly over full bit ranges. Safety items are invariants on every reachable state / every step of the action table; liveness is decided on SCCs, i.e. for all infinite behaviours, not sampled plays.',
+    note='trusts dd, the read-out, networkx SCCs and the arena reference for "winning"; scope 2-4 spec bits plus memory'),
+ 'C03': dict(
+    category='exploration', design='4/C03',
+    technique='bounded exhaustive enumeration of initial-condition combinations per game against the documented quantified formulas on explicit tables',
+    text='All admissible (qinit, EnvInit, SysInit) of a menu for every game (Streett and Rabin, 4 modes): verdict vs. formula over the reference region; constructed init[impl] checked for soundness and the quantifier pattern.',
+    note='strict reading for plus_one: SysInit unconditionally (documented form); stricter-but-valid initial conditions are accepted'),
+ 'C04': dict(
+    category='exploration', design='4/C04',
+    technique='bounded exhaustive input enumeration against an explicit-state game arena solved by Zielonka; determinacy (duality) checked between two library runs and the arena partition',
+    text='Every Rabin(1) game of the families vs. the arena; every Streett game paired with its dual Rabin game built in a fresh context; regions must partition the bit range. Also sequences of solves in one reused automaton.',
+    note='as C01'),
+ 'C05': dict(
+    category='model_checking', design='4/C05',
+    technique='explicit-state exploration of the closed loop env x synthesized Rabin implementation (reachable states, SCC criterion), BFS paths replayed through the real action BDD',
+    text='As C02 for make_rabin_transducer with memory (_hold, _goal): refinement, memory ranges, never blocked while obliged, Moore independence, Rabin fair-cycle criterion on SCCs.',
+    note='as C02; blocked states are classified by whether the environment is forced to break its action (signature of fixed finding F3)'),
+ 'C11': dict(
+    category='exploration', design='4/C11',
+    technique='bounded exhaustive enumeration of actions and state sets; least/greatest fixpoints decided by Knaster-Tarski over all subsets of the explicit state space',
+    text='step vs. pointwise formula on every state set; attractor/trap vs. intersection of all pre-fixpoints / union of all post-fixpoints over all subsets (literal least/greatest, not a re-run of the iteration); image and descendants vs. explicit successors; 4 modes, fresh and reused automata.',
+    note='descendants is checked against the properties stated (within constraint, closed, between constrained and plain reachability), not against one particular iteration'),
 }
 
 NOT_YET = 'check not built yet in this session (design in DESIGN.md section 4); will be claimed once its machinery runs clean on the unchanged tree'
